@@ -144,6 +144,8 @@ type stWorld struct {
 	published  []stPublished
 	mnSig      chan<- os.Signal      // main world: the channel main() handed to signal.Notify
 	mnRegChan  chan<- interface{}    // main world: the channel main() created for the ZMQ ingester
+	mnZMQMsg   chan struct{}         // main world: a message arrived at the subscriber (RunZMQ stand-in)
+	mnZMQStop  chan struct{}         // main world: closed at teardown
 }
 
 func stDefaultOpts() stOpts {
